@@ -17,7 +17,10 @@ def gen_content(rng, max_vars=7, max_depth=3, dashed=True, paths=True, free_vers
     K = {"release": rel, "base_product": pools.base_product(rng), "compose": pools.compose(rng, rel), "vars": []}
     nvars = rng.randint(1, max_vars)
     ids = rng.sample(pools.VARIANT_IDS, min(nvars, len(pools.VARIANT_IDS)))
-    for n, vid_name in enumerate(ids):
+    for vid_name in ids:
+        n = len(K["vars"])          # K["vars"][i]["n"] == i always
+        if n >= max_vars:
+            break
         # choose a parent: None (top) or an earlier variant of depth < max_depth
         cands = [i for i, v in enumerate(K["vars"]) if v["depth"] < max_depth and not v["dashed"]]
         parent = None
@@ -207,6 +210,12 @@ def poison_sites(K):
             foreign = [a for a in pools.ARCHES if a not in p["arches"]]
             if foreign:
                 sites.append({"kind": "var", "var": v["n"], "field": "arches", "bad": sorted(v["arches"] + [foreign[0]]), "good": v["arches"]})
+        sites.append({"kind": "var-inplace", "var": v["n"], "how": "clear", "good": v["arches"]})
+        if v["parent"] is not None:
+            p = K["vars"][v["parent"]]
+            foreign = [a for a in pools.ARCHES if a not in p["arches"]]
+            if foreign:
+                sites.append({"kind": "var-inplace", "var": v["n"], "how": "add", "value": foreign[0], "good": v["arches"]})
         if v["type"] == "layered-product":
             for f, bads in VAR_REL_POISON:
                 for b in pools.with_generic(bads):
@@ -219,6 +228,9 @@ def poison_ops(site, slot=0):
     if site["kind"] == "sec":
         p = {"op": "ci_set", "sec": site["sec"], "field": site["field"], "value": site["bad"]}
         h = {"op": "ci_set", "sec": site["sec"], "field": site["field"], "value": site["good"]}
+    elif site["kind"] == "var-inplace":
+        p = {"op": "var_arches_inplace", "var": site["var"], "how": site["how"], "value": site.get("value")}
+        h = {"op": "var_set", "var": site["var"], "field": "arches", "value": site["good"]}
     else:
         p = {"op": "var_set", "var": site["var"], "field": site["field"], "value": site["bad"]}
         h = {"op": "var_set", "var": site["var"], "field": site["field"], "value": site["good"]}
